@@ -77,6 +77,8 @@ class Check(CheckBase):
             for removed in itertools.chain.from_iterable(itertools.combinations(range(n), r) for r in range(n + 1)):
                 cs.append({"label": "n%d/B%d/%s/rm%s" % (n, B, "rev" if rev else "fwd", "".join(map(str, removed)) or "-"),
                            "n": n, "B": B, "rev": rev, "removed": list(removed), "split_depth": 8 if n * (2 if rev else 1) >= 2 and B >= 2 else None})
+                if not removed and n * (2 if rev else 1) == 2:
+                    cs.append(dict(cs[-1], label=cs[-1]["label"] + "/after-another-index", prior=True))
         return cs
 
     def config(self, tier, case):
@@ -102,6 +104,14 @@ class Check(CheckBase):
         ext = (zmax(xs) - zmin(xs)) + (zmax(ys) - zmin(ys))
         run.assume(ext > 0)
         q = [run.real("qx"), run.real("qy")]
+        if case.get("prior"):
+            # another index of the same size, built and queried earlier in the same interpreter (every cell probed)
+            other = sg.Index([[[0, 0], [1, 1]], [[10, 10], [9, 9]]], B, rev)
+            for cx in range(B):
+                for cy in range(B):
+                    other.nearest([0.1 + 10.0 * cx / B, 0.1 + 10.0 * cy / B])
+            other.remove_path(0)
+            other.nearest([5, 5])
         try:
             idx = sg.Index(verts, B, rev)
         except ZeroDivisionError:
@@ -196,6 +206,13 @@ class Check(CheckBase):
         ends = {k: verts[k][0] for k in range(n)}
         if rev:
             ends.update({n + k: verts[k][1] for k in range(n)})
+        if case.get("prior"):
+            other = sg.Index([[[0, 0], [1, 1]], [[10, 10], [9, 9]]], B, rev)
+            for cx in range(B):
+                for cy in range(B):
+                    other.nearest([0.1 + 10.0 * cx / B, 0.1 + 10.0 * cy / B])
+            other.remove_path(0)
+            other.nearest([5, 5])
         try:
             idx = sg.Index(verts, B, rev)
         except ZeroDivisionError:
